@@ -254,6 +254,23 @@ pub fn run_c06(ctx: &Ctx) -> Report {
         match (a, b) { (Ok(x), Ok(y)) => if x != y { rep.violate("property", "c06-threads-differ", "saturate of a :naive re-writing rule differs between 1 and 4 threads".into(), json!({"program": prog})); },
             (_, Err(e)) | (Err(e), _) => rep.violate("property", "c06-parallel-saturate-hang", format!("(saturate (run)) over a :naive rule that re-sets an existing value: {e}"), json!({"program": prog, "threads": 4})) }
     }
+    // relaxation stream: lattice functions whose values keep IMPROVING after every key exists (shortest / longest
+    // paths over random weighted graphs, min / max merge), run to saturation and with bounded runs: iterations whose only
+    // effect is a merge that changes an existing row must count as changes under every thread count
+    for ri in 0..ctx.n(25, 500) {
+        let nodes = 3 + rng.below(6) as i64; let maxm = rng.chance(1, 2);
+        let mut prog = format!("(function dist (i64) i64 :merge ({} old new))\n(relation edge (i64 i64 i64))\n", if maxm { "max" } else { "min" });
+        // a DAG (edges go upwards) so that max-merge terminates too; chains plus shortcuts of very different weight
+        for a in 0..nodes { for b in (a + 1)..nodes { if b == a + 1 || rng.chance(1, 3) { prog.push_str(&format!("(edge {a} {b} {})\n", if b == a + 1 { 1 } else { [2i64, 50, 100, 7][rng.below(4)] })); } } }
+        prog.push_str("(rule ((edge a b w) (= d (dist a))) ((set (dist b) (+ d w))))\n(set (dist 0) 0)\n");
+        let chunks: Vec<String> = vec![prog, format!("(run {})", 1 + rng.below(3)), "(print-function dist 20)".into(), "(run-schedule (saturate (run)))".into(), "(print-function dist 20)".into(), "(print-size dist)".into()];
+        rep.evaluations += 1;
+        let run = |threads: usize| -> Vec<String> { let mut eg = EGraph::default().with_num_threads(threads); chunks.iter().map(|c| run_all(&mut eg, std::slice::from_ref(c)).remove(0)).collect() };
+        let want = run(1);
+        for threads in [2usize, 4] { let got = run(threads); rep.note_nontrivial(&("relax", ri, threads)); rep.count("parallel_configurations_run", 1);
+            if got != want { let k = got.iter().zip(&want).position(|(x, y)| x != y).unwrap_or(0);
+                rep.violate("property", "c06-threads-differ", format!("threads={threads}, cut-offs 0 (relaxation): after `{}` the result differs from the single-threaded run: `{}` vs `{}`", chunks[k].chars().take(80).collect::<String>(), got[k].chars().take(300).collect::<String>(), want[k].chars().take(300).collect::<String>()), json!({"program": chunks[..=k].join("\n"), "threads": threads})); break; } }
+    }
     let n = ctx.n(30, 800);
     for pi in 0..n {
         let sig = pgen::gen_sig(&mut rng);
